@@ -9,7 +9,7 @@ Act(k, f, o) == [k |-> k, f |-> f, o |-> o]
 Alphabet == {Act("eval", f, -1) : f \in Fns}
        \cup {Act("push", f, o) : f \in PushFns, o \in {-1, 1, 2}}
        \cup {Act("slurp", f, -1) : f \in SlurpFns}
-       \cup {Act(k, "id", -1) : k \in {"blank", "bad", "badopt", "mid", "sigint", "eof", "run", "runpush"}}
+       \cup {Act(k, "id", -1) : k \in {"blank", "bad", "badopt", "mid", "sigint", "eof", "run", "runpush", "runce", "runab", "runfin"}}
 Line(a) == [k |-> a.k, f |-> a.f, o |-> a.o, t |-> Text(a)]
 VARIABLES gi, gs
 gvars == <<gi, gs>>
